@@ -182,46 +182,46 @@ theorem latest_none_iff {z : Zone} (hs : sorted z = true) (n : Int) :
       have : a ∈ fromLocal z n := by rw [hl]; exact List.mem_cons_self
       exact absurd ((mem_fromLocal hs n a).mp this) (h a)
 
-/-! ### the `datetime` loop -/
+/-! ### the minute loop and the walk back of `datetime` -/
 
-theorem datetime_of_some {z : Zone} {n u : Int} (h : latest? z n = some u) : datetime z n = .ok u := by
+theorem minuteLoop_of_some {z : Zone} {n u : Int} (h : latest? z n = some u) : minuteLoop z n = .ok (n, u) := by
   unfold latest? at h
-  rw [datetime]
+  rw [minuteLoop]
   split
   · rename_i u' hu'; rw [h] at hu'; cases hu'; rfl
   · rename_i hn; rw [h] at hn; cases hn
 
-theorem datetime_of_none {z : Zone} {n : Int} (h : latest? z n = none) :
-    datetime z n = if n + nsPerMin > instMax then .error "localize.rs:datetime no valid datetime for time zone"
-      else datetime z (n + nsPerMin) := by
+theorem minuteLoop_of_none {z : Zone} {n : Int} (h : latest? z n = none) :
+    minuteLoop z n = if n + nsPerMin > instMax then .error "localize.rs:datetime no valid datetime for time zone"
+      else minuteLoop z (n + nsPerMin) := by
   unfold latest? at h
-  rw [datetime]
+  rw [minuteLoop]
   split
   · rename_i u' hu'; rw [h] at hu'; cases hu'
   · rfl
 
-/-- the loop returns the latest instant of the first existing local time among `n, n + 1 min, …` -/
-theorem datetime_steps {z : Zone} (k : Nat) : ∀ (n u : Int),
+/-- the loop returns the first existing local time among `n, n + 1 min, …` and its latest instant -/
+theorem minuteLoop_steps {z : Zone} (k : Nat) : ∀ (n u : Int),
     (∀ j : Nat, j < k → latest? z (n + j * nsPerMin) = none) →
     latest? z (n + k * nsPerMin) = some u → n + k * nsPerMin ≤ instMax →
-    datetime z n = .ok u := by
+    minuteLoop z n = .ok (n + k * nsPerMin, u) := by
   induction k with
   | zero =>
     intro n u _ h _
-    simp only [Int.natCast_zero, Int.zero_mul, Int.add_zero] at h
-    exact datetime_of_some h
+    simp only [Int.natCast_zero, Int.zero_mul, Int.add_zero] at h ⊢
+    exact minuteLoop_of_some h
   | succ k ih =>
     intro n u hnone hsome hmax
     have h0 := hnone 0 (by omega)
     simp only [Int.natCast_zero, Int.zero_mul, Int.add_zero] at h0
-    rw [datetime_of_none h0]
+    rw [minuteLoop_of_none h0]
     have hk : n + (k + 1 : Nat) * nsPerMin = n + nsPerMin + k * nsPerMin := by
       simp only [Int.natCast_add, Int.natCast_one, Int.add_mul, Int.one_mul]; omega
     have hlt : ¬ (n + nsPerMin > instMax) := by
       rw [hk] at hmax
       have : (0 : Int) ≤ k * nsPerMin := Int.mul_nonneg (Int.natCast_nonneg k) (by simp [nsPerMin])
       omega
-    rw [if_neg hlt]
+    rw [if_neg hlt, hk]
     apply ih (n + nsPerMin) u
     · intro j hj
       have := hnone (j + 1) (by omega)
@@ -230,6 +230,52 @@ theorem datetime_steps {z : Zone} (k : Nat) : ∀ (n u : Int),
       rw [e] at this; exact this
     · rw [← hk]; exact hsome
     · rw [← hk]; exact hmax
+
+/-- no walk when the requested time itself exists -/
+theorem walkBack_self (z : Zone) (n dt : Int) : walkBack z n n dt = .ok dt := by
+  rw [walkBack, if_neg (by omega)]
+
+theorem datetime_of_some {z : Zone} {n u : Int} (h : latest? z n = some u) : datetime z n = .ok u := by
+  unfold datetime
+  rw [minuteLoop_of_some h]
+  exact walkBack_self z n u
+
+/-- what the walk back returns, in general: the latest instant of a local time `m'` reached from
+`m` by whole seconds through existing local times only, not below `req`; and the second before
+`m'` does not exist or is not above `req`.  No underflow for a representable `req`. -/
+theorem walkBack_spec {z : Zone} {req : Int} (hreq : instMin ≤ req) : ∀ (m u : Int),
+    (m - req) % nsPerSec = 0 → latest? z m = some u →
+    ∃ m' u', walkBack z req m u = .ok u' ∧ latest? z m' = some u' ∧ m' ≤ m ∧ (m' = m ∨ req ≤ m') ∧
+      (m - m') % nsPerSec = 0 ∧ (∀ x, m' ≤ x → x ≤ m → (m - x) % nsPerSec = 0 → latest? z x ≠ none) ∧
+      (req < m' → latest? z (m' - nsPerSec) = none) := by
+  intro m u
+  fun_induction walkBack z req m u with
+  | case1 m u hgt hlow => intro hph _; exfalso; simp only [nsPerSec] at *; omega
+  | case2 m u hgt hlow prev hprev ih =>
+    intro hph hl
+    have hph' : (m - nsPerSec - req) % nsPerSec = 0 := by simp only [nsPerSec] at *; omega
+    obtain ⟨m', u', h1, h2, h3, h4, h5, h6, h7⟩ := ih hph' hprev
+    refine ⟨m', u', h1, h2, by simp only [nsPerSec] at *; omega, ?_, by simp only [nsPerSec] at *; omega, ?_, h7⟩
+    · right
+      rcases h4 with h | h
+      · simp only [nsPerSec] at *; omega
+      · exact h
+    · intro x hx1 hx2 hx3
+      by_cases hxm : x = m
+      · subst hxm; rw [hl]; simp
+      · exact h6 x hx1 (by simp only [nsPerSec] at *; omega) (by simp only [nsPerSec] at *; omega)
+  | case3 m u hgt hlow hnone =>
+    intro _ hl
+    refine ⟨m, u, rfl, hl, by omega, Or.inl rfl, by simp, ?_, fun _ => hnone⟩
+    intro x hx1 hx2 _
+    have : x = m := by omega
+    subst this; rw [hl]; simp
+  | case4 m u hle =>
+    intro _ hl
+    refine ⟨m, u, rfl, hl, by omega, Or.inl rfl, by simp, ?_, fun h => by omega⟩
+    intro x hx1 hx2 _
+    have : x = m := by omega
+    subst this; rw [hl]; simp
 
 /-! ### consequences of the spacing condition, on table suffixes -/
 
@@ -477,18 +523,52 @@ theorem gap_end_aligned {p : Int} {l : List (Int × Int)} {n T a b : Int}
       · exact h
     · exact ih hg ha.2
 
-/-- **the loop in a gap**: the result is the instant `T + r` where `T` is the forward jump that
-skips `n`, `b` the local time it lands on, and `r = (n - b) mod 1 min` the sub-minute phase of
-`n` relative to `b` -/
+theorem emod_min_nonneg (x : Int) : 0 ≤ x % nsPerMin := Int.emod_nonneg _ (by simp [nsPerMin])
+theorem emod_min_lt (x : Int) : x % nsPerMin < nsPerMin := Int.emod_lt_of_pos _ (by simp [nsPerMin])
+theorem emod_sec_nonneg (x : Int) : 0 ≤ x % nsPerSec := Int.emod_nonneg _ (by simp [nsPerSec])
+theorem emod_sec_lt (x : Int) : x % nsPerSec < nsPerSec := Int.emod_lt_of_pos _ (by simp [nsPerSec])
+
+/-- the walk back after a gap `[.., b)` landing at `T`: from `b + x` it stops at the first second of
+the phase of `x`, `b + x mod 1 s` -/
+theorem walkBack_gap {z : Zone} {req T b : Int} (hreq : instMin ≤ req)
+    (hvalid : ∀ r, 0 ≤ r → r < nsPerMin → latest? z (b + r) = some (T + r))
+    (hinv : ∀ m, req ≤ m → m < b → latest? z m = none) (hlt : req < b)
+    {x : Int} (hx0 : 0 ≤ x) (hx1 : x < nsPerMin) (hph : (b + x - req) % nsPerSec = 0) :
+    walkBack z req (b + x) (T + x) = .ok (T + x % nsPerSec) := by
+  obtain ⟨m', u', h1, h2, h3, h4, h5, h6, h7⟩ := walkBack_spec hreq (b + x) (T + x) hph (hvalid x hx0 hx1)
+  have hge : b ≤ m' := by
+    apply Int.not_lt.mp
+    intro hc
+    have hreq' : req ≤ m' := by
+      rcases h4 with h | h
+      · omega
+      · exact h
+    rw [hinv m' hreq' hc] at h2; cases h2
+  have hlt' : m' < b + nsPerSec := by
+    apply Int.not_le.mp
+    intro hc
+    have hn := h7 (by omega)
+    have hv := hvalid (m' - nsPerSec - b) (by omega) (by simp only [nsPerSec, nsPerMin] at *; omega)
+    have e : b + (m' - nsPerSec - b) = m' - nsPerSec := by omega
+    rw [e, hn] at hv; cases hv
+  have hm : m' = b + x % nsPerSec := by simp only [nsPerSec, nsPerMin] at *; omega
+  have hv := hvalid (x % nsPerSec) (emod_sec_nonneg x) (by have := emod_sec_lt x; simp only [nsPerSec, nsPerMin] at *; omega)
+  rw [← hm, h2] at hv
+  cases hv
+  exact h1
+
+/-- **the loop in a gap**: the minute loop lands on `b + r`, `r = (n - b) mod 1 min`, and the walk
+back returns the instant `T + (n - b) mod 1 s`: `T` is the forward jump that skips `n`, `b` the
+local time it lands on -/
 theorem datetime_gap_core {z : Zone} (hs : sorted z = true) (hp : spaced z = true) {n : Int}
-    (he : latest? z n = none) (hmax : lastLocal z + nsPerMin ≤ instMax) :
+    (he : latest? z n = none) (hmax : lastLocal z + nsPerMin ≤ instMax) (hmin : instMin ≤ n) :
     ∃ T a b, gapOf z n = some (T, a, b) ∧ a ≤ n ∧ n < b ∧
       (∀ m, n ≤ m → m < b → latest? z m = none) ∧
       (∀ r, 0 ≤ r → r < nsPerMin → latest? z (b + r) = some (T + r)) ∧
-      datetime z n = .ok (T + (n - b) % nsPerMin) := by
+      datetime z n = .ok (T + (n - b) % nsPerSec) := by
   obtain ⟨T, a, b, g1, g2, g3, g4, g5, g6⟩ := gap_of_none hs hp he
-  have hr0 : 0 ≤ (n - b) % nsPerMin := Int.emod_nonneg _ (by simp [nsPerMin])
-  have hr1 : (n - b) % nsPerMin < nsPerMin := Int.emod_lt_of_pos _ (by simp [nsPerMin])
+  have hr0 := emod_min_nonneg (n - b)
+  have hr1 := emod_min_lt (n - b)
   have hall : ∀ r, 0 ≤ r → r < nsPerMin → latest? z (b + r) = some (T + r) := by
     intro r h0 h1
     unfold latest?; rw [g6 _ h0 h1]; rfl
@@ -501,14 +581,23 @@ theorem datetime_gap_core {z : Zone} (hs : sorted z = true) (hp : spaced z = tru
     · simp only [nsPerMin] at *; omega
     · simp only [nsPerMin] at *; omega
   obtain ⟨k, hk⟩ := hk
-  apply datetime_steps k n
-  · intro j hj
-    apply g5
-    · have : (0 : Int) ≤ j * nsPerMin := Int.mul_nonneg (Int.natCast_nonneg j) (by simp [nsPerMin])
-      omega
-    · simp only [nsPerMin] at *; omega
-  · rw [hk]; exact hl
-  · rw [hk]; omega
+  have hloop : minuteLoop z n = .ok (b + (n - b) % nsPerMin, T + (n - b) % nsPerMin) := by
+    rw [← hk]
+    apply minuteLoop_steps k n
+    · intro j hj
+      apply g5
+      · have : (0 : Int) ≤ j * nsPerMin := Int.mul_nonneg (Int.natCast_nonneg j) (by simp [nsPerMin])
+        omega
+      · simp only [nsPerMin] at *; omega
+    · rw [hk]; exact hl
+    · rw [hk]; omega
+  unfold datetime
+  rw [hloop]
+  simp only
+  rw [walkBack_gap hmin hall g5 g3 hr0 hr1 (by simp only [nsPerSec, nsPerMin] at *; omega)]
+  congr 2
+  simp only [nsPerSec, nsPerMin] at *
+  omega
 
 /-! ### induction along the loop, panic freedom, monotonicity -/
 
@@ -548,75 +637,125 @@ theorem datetime_induct (z : Zone) (P : Int → Prop)
   intro n
   exact key _ n (Nat.le_refl _)
 
-/-- the `expect("no valid datetime for time zone")` of the loop is unreachable when the table ends
-a minute before `NaiveDateTime::MAX` -/
-theorem datetime_no_panic {z : Zone} (hmax : lastLocal z + nsPerMin ≤ instMax) :
-    ∀ n, n ≤ instMax → ∃ u, datetime z n = .ok u := by
-  apply datetime_induct z (fun n => n ≤ instMax → ∃ u, datetime z n = .ok u)
+/-- what the minute loop returns -/
+theorem minuteLoop_spec {z : Zone} (hmax : lastLocal z + nsPerMin ≤ instMax) :
+    ∀ n, n ≤ instMax → ∃ m u, minuteLoop z n = .ok (m, u) ∧ latest? z m = some u ∧ n ≤ m ∧
+      (m - n) % nsPerMin = 0 ∧ (m = n ∨ (latest? z n = none ∧ m < lastLocal z + nsPerMin)) := by
+  apply datetime_induct z (fun n => n ≤ instMax → ∃ m u, minuteLoop z n = .ok (m, u) ∧ latest? z m = some u ∧
+      n ≤ m ∧ (m - n) % nsPerMin = 0 ∧ (m = n ∨ (latest? z n = none ∧ m < lastLocal z + nsPerMin)))
   · intro n u hu _
-    exact ⟨u, datetime_of_some hu⟩
+    exact ⟨n, u, minuteLoop_of_some hu, hu, by omega, by simp, Or.inl rfl⟩
   · intro n hn hlt ih _
-    rw [datetime_of_none hn, if_neg (by omega)]
-    exact ih (by omega)
+    rw [minuteLoop_of_none hn, if_neg (by omega)]
+    obtain ⟨m, u, h1, h2, h3, h4, h5⟩ := ih (by omega)
+    refine ⟨m, u, h1, h2, by simp only [nsPerMin] at *; omega, by simp only [nsPerMin] at *; omega, Or.inr ⟨hn, ?_⟩⟩
+    rcases h5 with h | h
+    · omega
+    · exact h.2
+
+/-- what `datetime` returns, in general: the latest instant of an existing local time `m'` that is
+`n` itself or lies after the non-existent `n`, below `lastLocal z + 1 min`.  In particular neither
+`expect("no valid datetime for time zone")` nor the subtraction of the walk back panics for a
+representable `n` when the table ends a minute before `NaiveDateTime::MAX`. -/
+theorem datetime_spec {z : Zone} (hmax : lastLocal z + nsPerMin ≤ instMax) {n : Int}
+    (hmin : instMin ≤ n) (hle : n ≤ instMax) :
+    ∃ m' u, datetime z n = .ok u ∧ latest? z m' = some u ∧
+      (m' = n ∨ (latest? z n = none ∧ n < m' ∧ m' < lastLocal z + nsPerMin)) := by
+  obtain ⟨m, u0, h1, h2, h3, h4, h5⟩ := minuteLoop_spec hmax n hle
+  unfold datetime
+  rw [h1]
+  simp only
+  obtain ⟨m', u', w1, w2, w3, w4, _, _, _⟩ :=
+    walkBack_spec hmin m u0 (by simp only [nsPerSec, nsPerMin] at *; omega) h2
+  refine ⟨m', u', w1, w2, ?_⟩
+  rcases h5 with h | h
+  · left; omega
+  · by_cases hmn : m' = n
+    · exact Or.inl hmn
+    · right
+      refine ⟨h.1, ?_, by omega⟩
+      rcases w4 with e | e
+      · omega
+      · omega
+
+theorem datetime_no_panic {z : Zone} (hmax : lastLocal z + nsPerMin ≤ instMax) :
+    ∀ n, instMin ≤ n → n ≤ instMax → ∃ u, datetime z n = .ok u := by
+  intro n h1 h2
+  obtain ⟨_, u, h, _⟩ := datetime_spec hmax h1 h2
+  exact ⟨u, h⟩
 
 /-- the local reading of the result is `n` itself or a later time below `lastLocal z + 1 min` -/
-theorem datetime_naive_bound {z : Zone} (hs : sorted z = true) :
-    ∀ n u, datetime z n = .ok u →
+theorem datetime_naive_bound {z : Zone} (hs : sorted z = true) (hmax : lastLocal z + nsPerMin ≤ instMax)
+    {n u : Int} (hmin : instMin ≤ n) (hle : n ≤ instMax) (h : datetime z n = .ok u) :
       naive z u = n ∨ (n < naive z u ∧ naive z u < lastLocal z + nsPerMin) := by
-  apply datetime_induct z (fun n => ∀ u, datetime z n = .ok u →
-      naive z u = n ∨ (n < naive z u ∧ naive z u < lastLocal z + nsPerMin))
-  · intro n u hu u' hu'
-    rw [datetime_of_some hu] at hu'
-    cases hu'
-    exact Or.inl (latest_spec hs hu).1
-  · intro n hn hlt ih u hu
-    rw [datetime_of_none hn] at hu
-    split at hu
-    · cases hu
-    · rcases ih u hu with h | h
-      · right; simp only [nsPerMin] at *; omega
-      · right; simp only [nsPerMin] at *; omega
+  obtain ⟨m', u', h1, h2, h3⟩ := datetime_spec hmax hmin hle
+  rw [h1] at h
+  cases h
+  have := (latest_spec hs h2).1
+  rcases h3 with e | e
+  · left; omega
+  · right; omega
 
 /-- what `datetime` returns: the latest instant of `n` when `n` exists, otherwise the instant
-`T + r` just after the forward jump `T` that skips `n` -/
+`T + (n - b) mod 1 s` just after the forward jump `T` that skips `n` -/
 theorem datetime_cases {z : Zone} (hs : sorted z = true) (hp : spaced z = true)
-    (hmax : lastLocal z + nsPerMin ≤ instMax) (n : Int) :
+    (hmax : lastLocal z + nsPerMin ≤ instMax) {n : Int} (hmin : instMin ≤ n) :
     (∃ u, latest? z n = some u ∧ datetime z n = .ok u) ∨
     (latest? z n = none ∧ ∃ T a b, gapOf z n = some (T, a, b) ∧ a ≤ n ∧ n < b ∧
       (∀ m, n ≤ m → m < b → latest? z m = none) ∧
       (∀ r, 0 ≤ r → r < nsPerMin → latest? z (b + r) = some (T + r)) ∧
-      datetime z n = .ok (T + (n - b) % nsPerMin)) := by
+      datetime z n = .ok (T + (n - b) % nsPerSec)) := by
   cases hl : latest? z n with
   | some u => exact Or.inl ⟨u, rfl, datetime_of_some hl⟩
-  | none => exact Or.inr ⟨rfl, datetime_gap_core hs hp hl hmax⟩
+  | none => exact Or.inr ⟨rfl, datetime_gap_core hs hp hl hmax hmin⟩
 
-theorem emod_min_nonneg (x : Int) : 0 ≤ x % nsPerMin := Int.emod_nonneg _ (by simp [nsPerMin])
-theorem emod_min_lt (x : Int) : x % nsPerMin < nsPerMin := Int.emod_lt_of_pos _ (by simp [nsPerMin])
+/-- a forward jump of a whole-second table lands on a whole second -/
+theorem gap_end_seconds {p : Int} {l : List (Int × Int)} {n T a b : Int}
+    (hg : gapOfFrom p l n = some (T, a, b)) (ha : ∀ q ∈ l, q.1 % nsPerSec = 0) : b % nsPerSec = 0 := by
+  induction l generalizing p with
+  | nil => cases hg
+  | cons hd rest ih =>
+    obtain ⟨t, o⟩ := hd
+    simp only [gapOfFrom] at hg
+    have ht := ha (t, o) List.mem_cons_self
+    split at hg
+    · cases hg
+      simp only [offNs, nsPerSec] at *
+      omega
+    · exact ih hg (fun q hq => ha q (List.mem_cons_of_mem _ hq))
 
-/-- monotonicity, first form: `a` exists, or is a whole minute and every forward jump of the table
-lands on a whole minute -/
+theorem secLt : nsPerSec < nsPerMin := by simp [nsPerSec, nsPerMin]
+
+/-- monotonicity, first form: `a` exists, or is a whole second in a whole-second table -/
 theorem datetime_mono_aligned {z : Zone} (hs : sorted z = true) (hp : spaced z = true)
-    (hal : gapsAligned z = true) (hmax : lastLocal z + nsPerMin ≤ instMax) {a b ua ub : Int}
-    (hab : a ≤ b) (ha : a % nsPerMin = 0 ∨ latest? z a ≠ none)
+    (hal : secondsAligned z = true) (hmax : lastLocal z + nsPerMin ≤ instMax) {a b ua ub : Int}
+    (hmin : instMin ≤ a) (hab : a ≤ b) (ha : a % nsPerSec = 0 ∨ latest? z a ≠ none)
     (hua : datetime z a = .ok ua) (hub : datetime z b = .ok ub) : ua ≤ ub := by
-  rcases datetime_cases hs hp hmax a with ⟨u, hla, hda⟩ | ⟨hla, T, a', b', g1, g2, g3, g4, g5, g6⟩
+  have hminb : instMin ≤ b := by omega
+  have sl := secLt
+  rcases datetime_cases hs hp hmax hmin with ⟨u, hla, hda⟩ | ⟨hla, T, a', b', g1, g2, g3, g4, g5, g6⟩
   · rw [hda] at hua; cases hua
-    rcases datetime_cases hs hp hmax b with ⟨u', hlb, hdb⟩ | ⟨hlb, T2, a2, b2, k1, k2, k3, k4, k5, k6⟩
+    rcases datetime_cases hs hp hmax hminb with ⟨u', hlb, hdb⟩ | ⟨hlb, T2, a2, b2, k1, k2, k3, k4, k5, k6⟩
     · rw [hdb] at hub; cases hub
       exact latest_mono hs hp hab hla hlb
     · rw [k6] at hub; cases hub
-      have h0 := emod_min_nonneg (b - b2)
-      exact latest_mono hs hp (by omega) hla (k5 _ h0 (emod_min_lt _))
+      have h0 := emod_sec_nonneg (b - b2)
+      have h1 := emod_sec_lt (b - b2)
+      exact latest_mono hs hp (by omega) hla (k5 _ h0 (by omega))
   · rw [g6] at hua; cases hua
-    have haa : a % nsPerMin = 0 := by
+    have haa : a % nsPerSec = 0 := by
       rcases ha with h | h
       · exact h
       · exact absurd hla h
-    have hb' : b' % nsPerMin = 0 := gap_end_aligned (gapOf_eq z a ▸ g1) hal
-    have hr : (a - b') % nsPerMin = 0 := by simp only [nsPerMin] at *; omega
+    have hb' : b' % nsPerSec = 0 := by
+      apply gap_end_seconds (gapOf_eq z a ▸ g1)
+      unfold secondsAligned at hal
+      simp only [List.all_eq_true, decide_eq_true_eq] at hal
+      exact hal
+    have hr : (a - b') % nsPerSec = 0 := by simp only [nsPerSec] at *; omega
     rw [hr]
     have g50 := g5 0 (by omega) (by simp [nsPerMin])
-    rcases datetime_cases hs hp hmax b with ⟨u', hlb, hdb⟩ | ⟨hlb, T2, a2, b2, k1, k2, k3, k4, k5, k6⟩
+    rcases datetime_cases hs hp hmax hminb with ⟨u', hlb, hdb⟩ | ⟨hlb, T2, a2, b2, k1, k2, k3, k4, k5, k6⟩
     · rw [hdb] at hub; cases hub
       have hbb : b' ≤ b := by
         apply Int.not_lt.mp
@@ -624,39 +763,42 @@ theorem datetime_mono_aligned {z : Zone} (hs : sorted z = true) (hp : spaced z =
         rw [g4 b hab hc] at hlb; cases hlb
       exact latest_mono hs hp (by omega) g50 hlb
     · rw [k6] at hub; cases hub
-      have h0 := emod_min_nonneg (b - b2)
-      have k50 := k5 _ h0 (emod_min_lt _)
-      have hle : b' + 0 ≤ b2 + (b - b2) % nsPerMin := by
+      have h0 := emod_sec_nonneg (b - b2)
+      have h1 := emod_sec_lt (b - b2)
+      have k50 := k5 _ h0 (by omega)
+      have hle : b' + 0 ≤ b2 + (b - b2) % nsPerSec := by
         apply Int.not_lt.mp
         intro hc
         rw [g4 _ (by omega) (by omega)] at k50; cases k50
       exact latest_mono hs hp hle g50 k50
 
-/-- monotonicity, second form: `a` and `b` have the same phase within the minute (no alignment
-hypothesis on the table) -/
+/-- monotonicity, second form: `a` and `b` have the same phase within the second (any table) -/
 theorem datetime_mono_congr {z : Zone} (hs : sorted z = true) (hp : spaced z = true)
-    (hmax : lastLocal z + nsPerMin ≤ instMax) {a b ua ub : Int}
-    (hab : a ≤ b) (hc : (b - a) % nsPerMin = 0)
+    (hmax : lastLocal z + nsPerMin ≤ instMax) {a b ua ub : Int} (hmin : instMin ≤ a)
+    (hab : a ≤ b) (hc : (b - a) % nsPerSec = 0)
     (hua : datetime z a = .ok ua) (hub : datetime z b = .ok ub) : ua ≤ ub := by
-  rcases datetime_cases hs hp hmax a with ⟨u, hla, hda⟩ | ⟨hla, T, a', b', g1, g2, g3, g4, g5, g6⟩
+  have hminb : instMin ≤ b := by omega
+  have sl := secLt
+  rcases datetime_cases hs hp hmax hmin with ⟨u, hla, hda⟩ | ⟨hla, T, a', b', g1, g2, g3, g4, g5, g6⟩
   · rw [hda] at hua; cases hua
-    rcases datetime_cases hs hp hmax b with ⟨u', hlb, hdb⟩ | ⟨hlb, T2, a2, b2, k1, k2, k3, k4, k5, k6⟩
+    rcases datetime_cases hs hp hmax hminb with ⟨u', hlb, hdb⟩ | ⟨hlb, T2, a2, b2, k1, k2, k3, k4, k5, k6⟩
     · rw [hdb] at hub; cases hub
       exact latest_mono hs hp hab hla hlb
     · rw [k6] at hub; cases hub
-      have h0 := emod_min_nonneg (b - b2)
-      exact latest_mono hs hp (by omega) hla (k5 _ h0 (emod_min_lt _))
+      have h0 := emod_sec_nonneg (b - b2)
+      have h1 := emod_sec_lt (b - b2)
+      exact latest_mono hs hp (by omega) hla (k5 _ h0 (by omega))
   · rw [g6] at hua; cases hua
-    have h1 := emod_min_nonneg (a - b')
-    have h2 := emod_min_lt (a - b')
-    have g5a := g5 _ h1 h2
+    have h1 := emod_sec_nonneg (a - b')
+    have h2 := emod_sec_lt (a - b')
+    have g5a := g5 _ h1 (by omega)
     by_cases hbb : b < b'
-    · -- `b` is one of the skipped steps of `a`: same landing time, same phase, same result
+    · -- `b` is skipped by the same jump: same landing time, same phase, same result
       have hlb : latest? z b = none := g4 b hab hbb
-      obtain ⟨T2, a2, b2, k1, k2, k3, k4, k5, k6⟩ := datetime_gap_core hs hp hlb hmax
+      obtain ⟨T2, a2, b2, k1, k2, k3, k4, k5, k6⟩ := datetime_gap_core hs hp hlb hmax hminb
       rw [k6] at hub; cases hub
-      have h3 := emod_min_nonneg (b - b2)
-      have h4 := emod_min_lt (b - b2)
+      have h3 := emod_sec_nonneg (b - b2)
+      have h4 := emod_sec_lt (b - b2)
       have e1 : b2 ≤ b' := by
         apply Int.not_lt.mp
         intro hc'
@@ -669,21 +811,22 @@ theorem datetime_mono_congr {z : Zone} (hs : sorted z = true) (hp : spaced z = t
         rw [g4 (b2 + 0) (by omega) (by omega)] at hv; cases hv
       have e3 : b2 = b' := by omega
       subst e3
-      have e4 : (b - b2) % nsPerMin = (a - b2) % nsPerMin := by
-        simp only [nsPerMin] at *; omega
-      have k5b := k5 _ h3 h4
+      have e4 : (b - b2) % nsPerSec = (a - b2) % nsPerSec := by
+        simp only [nsPerSec] at *; omega
+      have k5b := k5 _ h3 (by omega)
       rw [e4] at k5b ⊢
       rw [g5a] at k5b
       have := Option.some.inj k5b
       omega
-    · -- `b` is at/after the landing time, hence at/after the step of `a` that lands
-      have hstep : b' + (a - b') % nsPerMin ≤ b := by simp only [nsPerMin] at *; omega
-      rcases datetime_cases hs hp hmax b with ⟨u', hlb, hdb⟩ | ⟨hlb, T2, a2, b2, k1, k2, k3, k4, k5, k6⟩
+    · -- `b` is at/after the landing time, hence at/after the second of `a`'s phase that lands
+      have hstep : b' + (a - b') % nsPerSec ≤ b := by simp only [nsPerSec] at *; omega
+      rcases datetime_cases hs hp hmax hminb with ⟨u', hlb, hdb⟩ | ⟨hlb, T2, a2, b2, k1, k2, k3, k4, k5, k6⟩
       · rw [hdb] at hub; cases hub
         exact latest_mono hs hp hstep g5a hlb
       · rw [k6] at hub; cases hub
-        have h0 := emod_min_nonneg (b - b2)
-        exact latest_mono hs hp (by omega) g5a (k5 _ h0 (emod_min_lt _))
+        have h0 := emod_sec_nonneg (b - b2)
+        have h3 := emod_sec_lt (b - b2)
+        exact latest_mono hs hp (by omega) g5a (k5 _ h0 (by omega))
 
 /-! ### the iterator's bounds and the localized API -/
 
@@ -740,7 +883,7 @@ theorem itNext_class {env : Env} {stop : Int} {st st' : ItState} {iv : Interval}
               exact ⟨hA, hB⟩
 
 def BoundClass (frm to : Int) (x : Interval) : Prop :=
-  (x.start % nsPerMin = 0 ∨ x.start = frm) ∧ (x.stop % nsPerMin = 0 ∨ x.stop = to)
+  (x.start % nsPerMin = 0 ∨ x.start = frm) ∧ (x.stop % nsPerMin = 0 ∨ x.stop = to) ∧ frm ≤ x.start
 
 theorem clip_class {frm to : Int} {iv : Interval}
     (h : iv.start % nsPerMin = 0 ∧ (iv.stop % nsPerMin = 0 ∨ iv.stop = to)) :
@@ -873,11 +1016,12 @@ theorem naive_add {z : Zone} {u d : Int} (hd : 0 ≤ d)
   omega
 
 theorem mapInterval_ok {z : Zone} (hmax : lastLocal z + nsPerMin ≤ instMax) {iv : Interval}
+    (l1 : instMin ≤ iv.start) (l2 : instMin ≤ iv.stop)
     (h1 : iv.start ≤ instMax) (h2 : iv.stop ≤ instMax) :
     ∃ s t, datetime z iv.start = .ok s ∧ datetime z iv.stop = .ok t ∧
       mapInterval z iv = .ok ⟨s, t, iv.kind, iv.comments⟩ := by
-  obtain ⟨s, hs⟩ := datetime_no_panic hmax iv.start h1
-  obtain ⟨t, ht⟩ := datetime_no_panic hmax iv.stop h2
+  obtain ⟨s, hs⟩ := datetime_no_panic hmax iv.start l1 h1
+  obtain ⟨t, ht⟩ := datetime_no_panic hmax iv.stop l2 h2
   refine ⟨s, t, hs, ht, ?_⟩
   unfold mapInterval
   rw [hs, ht]
@@ -894,63 +1038,11 @@ theorem mapInterval_spec {z : Zone} {iv x : Interval} (h : mapInterval z iv = .o
       rename_i h1 _ _ h2
       exact ⟨h1, h2, rfl, rfl⟩
 
-/-- `stateTz` when no transition falls in the minute after `t` -/
-theorem stateTzG_eq {env : Env} {z : Zone} {t : Int} (hmax : lastLocal z + nsPerMin ≤ instMax)
-    (h1 : t + nsPerMin ≤ instMax) (hlo : instMin ≤ naive z t) (hhi : naive z t + nsPerMin ≤ instMax)
-    (hn : naive z (t + nsPerMin) = naive z t + nsPerMin) :
-    stateTzG env z t = stateNL env (naive z t) := by
-  unfold stateTzG stateNL
-  have hp : (0:Int) < nsPerMin := by simp [nsPerMin]
-  rw [naiveChecked_ok hlo (by omega)]
-  simp only
-  by_cases hend : naive z t ≥ instEnd
-  · rw [if_pos hend, if_pos hend]
-  · rw [if_neg hend, if_neg hend, if_neg (by omega)]
-    unfold firstIntervalTzG
-    rw [naiveChecked_ok hlo (by omega), naiveChecked_ok (by omega) (by omega)]
-    simp only [firstIntervalG_clamp, hn]
-    cases hf : firstIntervalG env (naive z t) (naive z t + nsPerMin) with
-    | error p => rfl
-    | ok r =>
-      cases r with
-      | none => rfl
-      | some iv =>
-        simp only
-        obtain ⟨_, b1, b2, b3⟩ := firstIntervalG_bounds hf
-        have := instEnd_le_instMax
-        obtain ⟨s, u, _, _, hm⟩ := mapInterval_ok hmax (iv := iv) (by omega) (by omega)
-        rw [hm]
-
-/-- `stateTz` when the clock is set back within the minute after `t` by more than the time that is
-left of that minute: the window is empty and the answer is `closed`, whatever the expression -/
-theorem stateTzG_closed_of_fold {env : Env} {z : Zone} {t : Int} {k : Kind}
-    (hn : naive z (t + nsPerMin) ≤ naive z t) (h : stateTzG env z t = .ok k) : k = .closed := by
-  unfold stateTzG at h
-  cases hf : naiveChecked z t with
-  | error p => rw [hf] at h; cases h
-  | ok nf =>
-    rw [hf] at h
-    simp only at h
-    split at h
-    · cases h; rfl
-    · split at h
-      · cases h
-      · unfold firstIntervalTzG at h
-        cases ht : naiveChecked z (t + nsPerMin) with
-        | error p => rw [hf, ht] at h; cases h
-        | ok nt =>
-          rw [hf, ht] at h
-          simp only at h
-          have e1 := naiveChecked_eq hf
-          have e2 := naiveChecked_eq ht
-          cases hfi : firstIntervalG env (min instEnd nf) (min instEnd nt) with
-          | error p => rw [hfi] at h; cases h
-          | ok r =>
-            have := firstIntervalG_empty (by omega) hfi
-            subst this
-            rw [hfi] at h
-            cases h
-            rfl
+/-- `stateTz` is the NoLocation `state` at the wall-clock time (repaired `state`, /repo b0d5731) -/
+theorem stateTzG_eq {env : Env} {z : Zone} {t : Int} (hlo : instMin ≤ naive z t) (hhi : naive z t ≤ instMax) :
+    stateTzG env z t = stateG env (naive z t) := by
+  unfold stateTzG
+  rw [naiveChecked_ok hlo hhi]
 
 /-- what `next_change` computes before its final test, in terms of the naive first interval -/
 theorem nextChangeTzG_unfold {env : Env} {z : Zone} {t : Int} (hs : sorted z = true)
@@ -992,10 +1084,10 @@ theorem nextChangeTzG_unfold {env : Env} {z : Zone} {t : Int} (hs : sorted z = t
 
 theorem nextChangeTzG_error {env : Env} {z : Zone} {t : Int} {p : String} (hs : sorted z = true)
     (hend : lastLocal z + nsPerMin ≤ instEnd) (hlo : instMin ≤ naive z t) (hhi : naive z t ≤ instMax)
-    (h : nextChangeNL env (naive z t) = .error p) : nextChangeTzG env z t = .error p := by
+    (h : nextChangeG env (naive z t) = .error p) : nextChangeTzG env z t = .error p := by
   obtain ⟨E, _, _, hu⟩ := nextChangeTzG_unfold (env := env) hs hend hlo hhi
   rw [hu]
-  unfold nextChangeNL at h
+  unfold nextChangeG at h
   cases hf : firstIntervalG env (naive z t) instEnd with
   | error q => rw [hf] at h; simp only at h ⊢; exact h
   | ok r =>
@@ -1006,12 +1098,12 @@ theorem nextChangeTzG_error {env : Env} {z : Zone} {t : Int} {p : String} (hs : 
 
 theorem nextChangeTzG_none {env : Env} {z : Zone} {t : Int} (hs : sorted z = true)
     (hend : lastLocal z + nsPerMin ≤ instEnd) (hlo : instMin ≤ naive z t) (hhi : naive z t ≤ instMax)
-    (h : nextChangeNL env (naive z t) = .ok none) : nextChangeTzG env z t = .ok none := by
+    (h : nextChangeG env (naive z t) = .ok none) : nextChangeTzG env z t = .ok none := by
   obtain ⟨E, hE, hnE, hu⟩ := nextChangeTzG_unfold (env := env) hs hend hlo hhi
   rw [hu]
   have h1 := instEnd_le_instMax
   have h2 := instMin_le_instEnd
-  unfold nextChangeNL at h
+  unfold nextChangeG at h
   cases hf : firstIntervalG env (naive z t) instEnd with
   | error q => rw [hf] at h; cases h
   | ok r =>
@@ -1025,7 +1117,8 @@ theorem nextChangeTzG_none {env : Env} {z : Zone} {t : Int} (hs : sorted z = tru
         split at h
         · omega
         · cases h
-      obtain ⟨s, u, _, hu2, hm⟩ := mapInterval_ok (z := z) (by omega) (iv := iv) (by omega) (by omega)
+      have hfl : instMin ≤ min instEnd (naive z t) := by omega
+      obtain ⟨s, u, _, hu2, hm⟩ := mapInterval_ok (z := z) (by omega) (iv := iv) (by omega) (by omega) (by omega) (by omega)
       rw [hm]
       simp only
       rw [hstop, hE] at hu2
@@ -1035,13 +1128,13 @@ theorem nextChangeTzG_none {env : Env} {z : Zone} {t : Int} (hs : sorted z = tru
 
 theorem nextChangeTzG_some {env : Env} {z : Zone} {t c : Int} (hs : sorted z = true)
     (hend : lastLocal z + nsPerMin ≤ instEnd) (hlo : instMin ≤ naive z t) (hhi : naive z t ≤ instMax)
-    (h : nextChangeNL env (naive z t) = .ok (some c)) (hc : instMin ≤ c) :
+    (h : nextChangeG env (naive z t) = .ok (some c)) (hc : instMin ≤ c) :
     ∃ u, datetime z c = .ok u ∧ nextChangeTzG env z t = .ok (some u) := by
   obtain ⟨E, hE, hnE, hu⟩ := nextChangeTzG_unfold (env := env) hs hend hlo hhi
   rw [hu]
   have h1 := instEnd_le_instMax
   have hp : (0:Int) < nsPerMin := by simp [nsPerMin]
-  unfold nextChangeNL at h
+  unfold nextChangeG at h
   cases hf : firstIntervalG env (naive z t) instEnd with
   | error q => rw [hf] at h; cases h
   | ok r =>
@@ -1055,40 +1148,17 @@ theorem nextChangeTzG_some {env : Env} {z : Zone} {t c : Int} (hs : sorted z = t
         split at h
         · cases h
         · cases h; omega
-      obtain ⟨s, u, _, hu2, hm⟩ := mapInterval_ok (z := z) (by omega) (iv := iv) (by omega) (by omega)
+      have h2 := instMin_le_instEnd
+      have hfl : instMin ≤ min instEnd (naive z t) := by omega
+      obtain ⟨s, u, _, hu2, hm⟩ := mapInterval_ok (z := z) (by omega) (iv := iv) (by omega) (by omega) (by omega) (by omega)
       rw [hstop.1] at hu2
       refine ⟨u, hu2, ?_⟩
       rw [hm]
       simp only
-      have hb := datetime_naive_bound hs c u hu2
+      have hb := datetime_naive_bound hs (by omega) hc (by omega) hu2
       rw [naiveChecked_ok (by omega) (by omega)]
       simp only
       rw [if_neg (by omega)]
-
-/-- skipping over non-existent minute steps does not change the result -/
-theorem datetime_skip {z : Zone} (k : Nat) : ∀ a : Int,
-    (∀ j : Nat, j < k → latest? z (a + j * nsPerMin) = none) → a + k * nsPerMin ≤ instMax →
-    datetime z a = datetime z (a + k * nsPerMin) := by
-  induction k with
-  | zero => intro a _ _; simp
-  | succ k ih =>
-    intro a hnone hmax
-    have h0 := hnone 0 (by omega)
-    simp only [Int.natCast_zero, Int.zero_mul, Int.add_zero] at h0
-    have hk : a + (k + 1 : Nat) * nsPerMin = a + nsPerMin + k * nsPerMin := by
-      simp only [Int.natCast_add, Int.natCast_one, Int.add_mul, Int.one_mul]; omega
-    have hlt : ¬ (a + nsPerMin > instMax) := by
-      rw [hk] at hmax
-      have : (0 : Int) ≤ k * nsPerMin := Int.mul_nonneg (Int.natCast_nonneg k) (by simp [nsPerMin])
-      omega
-    rw [datetime_of_none h0, if_neg hlt, hk]
-    apply ih
-    · intro j hj
-      have := hnone (j + 1) (by omega)
-      have e : a + ((j + 1 : Nat) : Int) * nsPerMin = a + nsPerMin + j * nsPerMin := by
-        simp only [Int.natCast_add, Int.natCast_one, Int.add_mul, Int.one_mul]; omega
-      rw [e] at this; exact this
-    · rw [← hk]; exact hmax
 
 /-- a gap found after `(t, o)` lies at/after the end of the span that starts at `t` -/
 theorem gap_ge_end {p t o : Int} {l : List (Int × Int)} (hs : sortedFrom t l = true)
@@ -1144,32 +1214,51 @@ theorem gapOf_isSome_iff {z : Zone} (hs : sorted z = true) (hp : spaced z = true
     rw [g1]; rfl
 
 /-- D16 as a class: both bounds of a local span inside a gap (with the same phase within the
-minute) are mapped to the same instant -/
+second) are mapped to the same instant -/
 theorem datetime_eq_of_localSpanInGap {z : Zone} (hs : sorted z = true) (hp : spaced z = true)
-    {a b : Int} (hg : localSpanInGap z a b = true) (hc : (b - a) % nsPerMin = 0) (hb : b ≤ instMax) :
+    (hmax : lastLocal z + nsPerMin ≤ instMax)
+    {a b : Int} (hg : localSpanInGap z a b = true) (hc : (b - a) % nsPerSec = 0) (hmin : instMin ≤ a) :
     datetime z a = datetime z b := by
   unfold localSpanInGap at hg
   split at hg
   · rename_i T a' g hgap
     simp only [decide_eq_true_eq] at hg
     have hnone : latest? z a = none := (gapOf_isSome_iff hs hp a).mp (by rw [hgap]; rfl)
-    obtain ⟨T1, a1, b1, g1, g2, g3, g4, g5, g6⟩ := gap_of_none hs hp hnone
+    obtain ⟨T1, a1, b1, g1, g2, g3, g4, g5, g6⟩ := datetime_gap_core hs hp hnone hmax hmin
     rw [hgap] at g1
     cases g1
-    have hk : ∃ k : Nat, a + k * nsPerMin = b := by
-      refine ⟨((b - a) / nsPerMin).toNat, ?_⟩
-      rw [Int.toNat_of_nonneg]
-      · simp only [nsPerMin] at *; omega
-      · simp only [nsPerMin] at *; omega
-    obtain ⟨k, hk⟩ := hk
-    rw [← hk]
-    apply datetime_skip k a
-    · intro j hj
-      apply g5
-      · have : (0 : Int) ≤ j * nsPerMin := Int.mul_nonneg (Int.natCast_nonneg j) (by simp [nsPerMin])
-        omega
-      · simp only [nsPerMin] at *; omega
-    · omega
+    rw [g6]
+    by_cases hbg : b = g
+    · -- the span ends exactly where the jump lands
+      have h0 := g5 0 (by omega) (by simp [nsPerMin])
+      rw [hbg]
+      simp only [Int.add_zero] at h0
+      rw [datetime_of_some h0]
+      have : (a - g) % nsPerSec = 0 := by simp only [nsPerSec] at *; omega
+      rw [this, Int.add_zero]
+    · have hnb : latest? z b = none := g4 b (by omega) (by omega)
+      obtain ⟨T2, a2, b2, k1, k2, k3, k4, k5, k6⟩ := datetime_gap_core hs hp hnb hmax (by omega)
+      have e1 : b2 ≤ g := by
+        apply Int.not_lt.mp
+        intro hc'
+        have hv := g5 0 (by omega) (by simp [nsPerMin])
+        rw [k4 (g + 0) (by omega) (by omega)] at hv; cases hv
+      have e2 : g ≤ b2 := by
+        apply Int.not_lt.mp
+        intro hc'
+        have hv := k5 0 (by omega) (by simp [nsPerMin])
+        rw [g4 (b2 + 0) (by omega) (by omega)] at hv; cases hv
+      have e3 : b2 = g := by omega
+      subst e3
+      have hT := k5 0 (by omega) (by simp [nsPerMin])
+      rw [g5 0 (by omega) (by simp [nsPerMin])] at hT
+      have hTT := Option.some.inj hT
+      rw [k6]
+      have e4 : (b - b2) % nsPerSec = (a - b2) % nsPerSec := by
+        simp only [nsPerSec] at *; omega
+      rw [e4]
+      congr 2
+      omega
   · cases hg
 
 /-! ### ordering of mapped interval lists -/
